@@ -187,6 +187,22 @@ KF_C01_1(X) ==
                nb == NextBlockU(X.t.pre, r.u)
            IN  r.off + r.len = b.n /\ (nb = 0 \/ BlockByU(X.t.pre, nb).k # "code")
 
+\* KF-C05-1: a code block with structural CFI directives and no code neighbour is
+\* deleted and kept as a zero-sized block (documented); the data block behind it is
+\* deleted WITH retarget_to_proxy in the same batch.  delete() tidies up a preceding
+\* zero-sized block only when retarget_to_proxy is not set, so the zero-sized block
+\* survives in front of code, with its labels.
+KF_C05_1_Blocks(X) ==
+  {a \in Range(AllBlocks(X.t.pre)) :
+     /\ a.k = "code" /\ a.n > 0
+     /\ \E c \in Range(a.cfi) : \E q \in DOMAIN c.ds : IsStructuralCfi(c.ds[q])
+     /\ (WholeDeleted(X.t.pre, X.t.reqs, a.u) \/ AllUnitsDeleted(X.t.pre, X.t.reqs, a.u))
+     /\ PrevBlock(X.t.pre, a.u).k # "code"
+     /\ LET nb == NextBlockU(X.t.pre, a.u)
+        IN  /\ nb # 0 /\ BlockByU(X.t.pre, nb).k = "data"
+            /\ WholeDeleted(X.t.pre, X.t.reqs, nb) /\ ToProxy(X.t.reqs, nb)}
+KF_C05_1_Names(X) == UNION {Range(a.ss) \cup Range(a.es) : a \in KF_C05_1_Blocks(X)}
+
 \* KF-C01-2: insertion at offset x of a block, deletion of [x, end of the block) and
 \* another insertion at the block's end.  When the first insertion leaves the tail
 \* as a block of its own (patch with a label / terminator, or no function tables)
@@ -233,11 +249,26 @@ KfTags(X, K, clause) ==
   CASE clause = "C02_Positions" ->
          IF /\ ObsOrigSymFacts(X) \subseteq ExpOrigSymFacts(X)
             /\ \A f \in ExpOrigSymFacts(X) \ ObsOrigSymFacts(X) : KF_C02_1_Sym(X, f.n)
-         THEN {"KF-C02-1"} ELSE {}
+         THEN {"KF-C02-1"}
+         ELSE IF /\ KF_C05_1_Blocks(X) # {}
+                 /\ \A f \in SDiff(ExpOrigSymFacts(X), ObsOrigSymFacts(X)) : f.n \in KF_C05_1_Names(X)
+         THEN {"KF-C05-1"} ELSE {}
     [] clause = "C02_Proxy" ->
          IF /\ ExpProxied(X) \cup PreProxied(X) \subseteq ObsProxied(X)
             /\ \A n \in ObsProxied(X) \ (ExpProxied(X) \cup PreProxied(X)) : KF_C02_1_Sym(X, n)
-         THEN {"KF-C02-1"} ELSE {}
+         THEN {"KF-C02-1"}
+         ELSE IF /\ KF_C05_1_Blocks(X) # {}
+                 /\ SDiff(ExpProxied(X) \cup PreProxied(X), ObsProxied(X)) \subseteq KF_C05_1_Names(X)
+         THEN {"KF-C05-1"} ELSE {}
+    [] clause = "C05_ZeroSizedJustified" ->
+         \* every unjustified zero-sized block of the result is such a kept CFI block
+         IF /\ KF_C05_1_Blocks(X) # {}
+            /\ \A i \in DOMAIN X.t.post.secs :
+                  LET bs == X.t.post.secs[i].blocks
+                  IN  \A j \in DOMAIN bs :
+                        (bs[j].n = 0 /\ j < Len(bs) /\ bs[j + 1].k = "code") =>
+                           (bs[j].k = "code" /\ bs[j].cfi # <<>>)
+         THEN {"KF-C05-1"} ELSE {}
     [] clause = "C02_PatchLabels" ->
          LET tm == TrailingMoved(X)
              missing == ExpPatchSymFacts(X) \ ObsPatchSymFacts(X)
